@@ -20,7 +20,7 @@ RULE = ('trash-put of one symlink per case (to file, dir, nothing, another link,
         'non-trivial = the link resolves to something (or has trailing slashes); distinct = (link kind, target volume relation, trailing '
         'slashes, reached through link, outcome)')
 ASSUMPTIONS = ["'link-to-file/' is ENOTDIR for the kernel: failing is legitimate there, following is not"]
-PROBES = ['cross-volume-fallback', 'link-trashed', 'trailing-slash-on-dirlink-trashed', 'legitimate-enotdir-refusal', 'target-other-volume', 'reached-through-link',
+PROBES = ['another-link-took-the-place', 'cross-volume-fallback', 'link-trashed', 'trailing-slash-on-dirlink-trashed', 'legitimate-enotdir-refusal', 'target-other-volume', 'reached-through-link',
           'restored-identical-link', 'dangling', 'chain', 'selfloop', 'with-force', 'with-interactive-yes', 'link-given-after-its-own-target']
 TECHNIQUE = 'deterministic simulation of put and restore on generated symlink configurations; snapshot oracle on the link target, lstat/readlink of the payload, recorded location'
 LEVEL_TEXT = 'seeded exploration of link kinds x spellings x volumes; the target subtree must be snapshot-identical after every command'
@@ -116,13 +116,24 @@ def gen(rng):
     if kind in ('file', 'dir', 'chain', 'chain_dir') and rng.random() < 0.15 and '-i' not in putopts:
         # the link's own target is given as an operand too, BEFORE the link: both are entries of their own
         also = {'file': aux + '/tfile', 'dir': aux + '/tdir', 'chain': aux + '/hop', 'chain_dir': aux + '/hopd'}[kind]
+    occupant = None
+    if rng.random() < 0.15 and not also:
+        # between the put and the restore ANOTHER symlink appears where the trashed one was (the 'current' link was flipped to
+        # the next release): without --overwrite the restore is refused; with it the trashed link takes the place of the new one
+        # - the new link's target is never entered, written through or created
+        steps.append(['d', home + '/aux/occ_dir', 0o755])
+        steps.append(['f', home + '/aux/occ_dir/member', 'm', 0o644])
+        steps.append(['f', home + '/aux/occ_file', 'occupant target', 0o644])
+        occupant = {'target': rng.choice([home + '/aux/occ_dir', home + '/aux/occ_dir', home + '/aux/occ_file', home + '/aux/occ_nothing', 'occ_rel_nothing']),
+                    'overwrite': rng.random() < 0.6}
     procs = [{'argv': ['trash-put'] + putopts + ['--'] + ([also] if also else []) + [arg], 'env': env, 'cwd': home, 'uid': uid, 'stdin': 'y\ny\n'},
-             {'argv': ['trash-restore', '--sort=path', '/'], 'env': env, 'cwd': '/', 'uid': uid, 'stdin': '?'}]
+             {'argv': ['trash-restore', '--sort=path'] + (['--overwrite'] if occupant and occupant['overwrite'] else []) + ['/'],
+              'env': env, 'cwd': '/', 'uid': uid, 'stdin': '?'}]
     return {
         'world': {'mounts': L['mounts'], 'steps': steps},
         'procs': procs,
         'dirsalt': rng.randrange(1 << 30),
-        'note': {'kind': kind, 'slashes': slashes, 'via': via, 'also_target': also},
+        'note': {'kind': kind, 'slashes': slashes, 'via': via, 'also_target': also, 'occupant': occupant},
     }
 
 
@@ -263,10 +274,21 @@ def check(sim, case, st):
             items = OR.parse_restore_items(out) or []
             c = [i for i, _d, pth in items if pth == loc]
             return ('%d\n' % c[0]) if c else '\n'
+        occ = note.get('occupant')
+        if occ and loc not in sim.snap():
+            Wd.build(sim.root, {'steps': [['l', loc, occ['target']]]})
+            st.probes['another-link-took-the-place'] += 1
+            o0 = outside(sim.snap(), loc, tds)
+        else:
+            occ = None
         rr = sim.run(procs[1], stdin_fn=user)
         st.sims += 1
         snap2 = sim.snap()
-        if snap2.get(loc) != snap0[loc]:
+        if occ and not occ['overwrite']:
+            if snap2.get(loc) != ('l', occ['target']) or rr.exit == 0:
+                res.append(('C18/restore-over-new-link-not-refused/%s' % sig, 'a new link -> %r sits at %r, no --overwrite: now %r, restore exit %s'
+                            % (occ['target'], loc, snap2.get(loc), rr.exit)))
+        elif snap2.get(loc) != snap0[loc]:
             res.append(('C18/restore-not-identical-link/%s' % sig, 'after restore %r is %r, originally %r (restore exit %s, stderr %s)'
                         % (loc, snap2.get(loc), snap0[loc], rr.exit, rr.errs[-300:])))
         else:
